@@ -46,6 +46,12 @@ func (e *Enc) backgroundD(n int, defsOn bool) string {
 	if e.needFP {
 		b.WriteString(fpPrelude)
 	}
+	if e.needB {
+		b.WriteString(bytesPrelude)
+		if e.ct != nil && e.ct.Opts["bytes-le-defs"] != "" {
+			b.WriteString(bytesLEDefs)
+		}
+	}
 	if e.needBE {
 		b.WriteString("(declare-fun be_of ((Array Ref Int) Slice) Int)\n")
 	}
